@@ -187,7 +187,7 @@ def run_case(case, env):
         def brute():
             return {w for w in words if acc(w)}
 
-        budget = 3_000_000
+        budget = 2_000_000
         if kind == 'pda':
             with ClosureSpy(s0, step['limit']) as spy:
                 r1 = call(env, enum, budget=budget)
